@@ -15,7 +15,7 @@ def load_known():
 def extra_engines(prop):
     """Non-Kani solver engines contributing queries to a property."""
     out = []
-    if prop in ("C17", "C11"):
+    if prop in ("C17", "C11", "C13"):
         try:
             from mir2smt import queries
             out.append(queries)
